@@ -135,7 +135,8 @@ reg(Prop(
          '(repetition, sequence, optional, alternative, separator, convert over results produced by convert). The post step compiles all '
          'slices again with a move-only element type (all-rvalue combinations). distinct = hash of (operation, instantiation, categories, shape).'
          ' container::join over std::set with a function-pointer ordering (first argument lvalue and rvalue): every payload once, in the first argument\'s order, lvalue untouched.'
-         ' optional::filter with a by-value predicate that consumes its parameter: the returned optional still holds the payload, an lvalue argument is untouched.',
+         ' optional::filter with a by-value predicate that consumes its parameter: the returned optional still holds the payload, an lvalue argument is untouched.'
+         ' pop_back / pop_front over std::deque of an element type with a throwing (not noexcept) move constructor: no copies.',
     assumptions=COMMON_ASSUMPTIONS + [
         '"moved at most once" is read as the statement explains it (no object is moved from twice, no element duplicated), not as a bound on the length of a move chain (observed: up to 40 moves of one element through nested records/arrays)',
         'copies of elements of an LVALUE / const argument are allowed (join(lvalue, ...) copies its first container by design); the harness continuations never take a parameter by value and never copy, so every copy in the log was made by library (or standard library, on its behalf) code',
